@@ -42,8 +42,12 @@ class SimOverrun(BaseException):
 class Baton:
     def __init__(self, nthreads, pkg_prefix, rng=None, p_switch=0.0,
                  table=None, cancel_plan=None, max_events=400_000,
-                 burst=True, record_sites=None, opcodes=False):
+                 burst=True, record_sites=None, opcodes=False, cancel_exc=None):
         self.n = nthreads
+        # what an injected failure looks like to the code: an asynchronous
+        # BaseException (default) or an ordinary exception such as MemoryError,
+        # which an over-broad handler inside the library may swallow
+        self.cancel_exc = cancel_exc or SimCancelled
         self.pkg = pkg_prefix
         self.rng = rng
         self.p = p_switch
@@ -154,7 +158,7 @@ class Baton:
             if d[0] == "cancel":
                 if self.cancellable[me]:
                     self._record(me, k, "cancel", None, frame)
-                    raise SimCancelled()
+                    raise self.cancel_exc()
                 return
             to = d[1]
             if to != me and 0 <= to < self.n and not self.done[to]:
@@ -167,7 +171,7 @@ class Baton:
                 and self.thread_events[me] >= cp and self.cancellable[me]):
             self.cancel_done[me] = True
             self._record(me, k, "cancel", None, frame)
-            raise SimCancelled()
+            raise self.cancel_exc()
         if self.rng is None:
             return
         do = False
